@@ -108,7 +108,8 @@ class Job:
                  harness=None, unwind=None, solvers=('minisat',), timeout=120, klass='proof', bound='',
                  shim=None, shim_types=None, oracle=None, canary='ensures', skip_this=None, prop=None,
                  extra_c='', loop_contracts=False, note='', inline_ok=True, cbmc_flags=(), inputs=None,
-                 expect_fail=None, finding=None, layer=0, object_bits=12, mem_gb=12, cex_filter=None):
+                 expect_fail=None, finding=None, layer=0, object_bits=12, mem_gb=12, cex_filter=None, optional=False):
+        self.optional = optional
         self.name = name
         self.kernel = kernel
         self.target = target
@@ -209,6 +210,8 @@ def classify(desc, prop_name):
         return 'loop'
     if 'no body' in d or 'no-body' in prop_name:
         return 'no-body'
+    if 'recursive call' in d:
+        return 'dfcc-recursion'
     if 'same object' in d or 'pointer relation' in d:
         return 'pointer'
     if 'division by zero' in d:
@@ -608,6 +611,11 @@ def run_job(job, kern, wd):
     os.makedirs(jd)
     res.dir = jd
     try:
+        if job.optional and not kern.find_all(job.target):
+            res.status = 'skipped'
+            res.detail = 'function not instantiated in this configuration'
+            res.wall_s = time.time() - t0
+            return res
         _run_job(job, kern, jd, res)
     except RefusedError as e:
         res.status = 'refused'
@@ -634,7 +642,8 @@ def _pipeline(job, kern, jd, tag, canary, res, want_trace=True):
     rc, out, err, s, to = run_cmd(cmd1, jd, 300)
     if rc != 0 or not os.path.exists(a):
         raise Infra('goto-cc failed for %s:\n%s' % (job.name, (out + err)[-3000:]))
-    cmd2 = ['goto-instrument', '--dfcc', 'vp_h', '--enforce-contract', fi['cname']]
+    recursive = fi['mangled'] in fi['calls']
+    cmd2 = ['goto-instrument', '--dfcc', 'vp_h', '--enforce-contract-rec' if recursive else '--enforce-contract', fi['cname']]
     for h in repl:
         cmd2 += ['--replace-call-with-contract', tr.funcs[h]['cname']]
     if job.loop_contracts:
